@@ -617,21 +617,28 @@ class Path(Expression):
                 self.path.append(segment)
 
     def __str__(self) -> str:
+        return self._str()
+
+    def _str(self, *, nested: bool = False) -> str:
+        # Inside brackets a word is always a variable name, never a keyword.
         it = iter(self.path)
         root = next(it)
         if isinstance(root, str) and (
-            not RE_PROPERTY.fullmatch(root) or root in _RESERVED_WORDS
+            not RE_PROPERTY.fullmatch(root)
+            or (not nested and root in _RESERVED_WORDS)
         ):
             buf = [f"[{quote_string(root)}]"]
-        elif isinstance(root, (Path, int)):
-            # The name of the root variable is itself the value of a variable, or
-            # an integer. Without brackets `[0]` would be the integer literal `0`.
+        elif isinstance(root, Path):
+            # The name of the root variable is itself the value of a variable.
+            buf = [f"[{root._str(nested=True)}]"]
+        elif isinstance(root, int):
+            # Without brackets `[0]` would be the integer literal `0`.
             buf = [f"[{root}]"]
         else:
             buf = [str(root)]
         for segment in it:
             if isinstance(segment, Path):
-                buf.append(f"[{segment}]")
+                buf.append(f"[{segment._str(nested=True)}]")
             elif isinstance(segment, str):
                 if RE_PROPERTY.fullmatch(segment):
                     buf.append(f".{segment}")
